@@ -199,7 +199,8 @@ def gen_case(cid, kind, rng, thorough):
         ops.append("SNAP")
     ops += ["DROPALL", "GC", "SNAP"]
     hdr = ddgen.header(cid, kind, cap=1 << 16, cache=rng.choice([4, 64, 4096]), threads=workers,
-                       extra=f"seed={rng.randrange(1 << 30)} yield={rng.choice([0, 50, 200, 500])}")
+                       extra=f"seed={rng.randrange(1 << 30)} yield={rng.choice([0, 50, 200, 500])}"
+                             + rng.choice(["", "", " split=0", " split=2", " split=12"]))
     return (hdr, ops)
 
 
